@@ -1055,6 +1055,9 @@ class SSHProcess(SSHStreamSession, Generic[AnyStr]):
         self._readers = {}
         self._writers = {}
 
+        for datatype in self._drain_waiters:
+            self._unblock_drain(datatype)
+
     def data_received(self, data: AnyStr, datatype: DataType) -> None:
         """Handle incoming data from the SSH channel"""
 
